@@ -69,7 +69,7 @@ pub fn gen_stream(name: &str, seed: u64, n: usize, tier: &str) -> Vec<String> {
         "run_secp4" => (0..n)
             .map(|i| {
                 let (p, e) = interp_oracles::secp4_program(&mut rng);
-                let flags = progs::random_flags(&mut rng) & !0x2;
+                let flags = if i % 7 == 3 { progs::random_flags(&mut rng) } else { progs::random_flags(&mut rng) & !0x2 };
                 format!("RUN s{} chia {:x} 0 - {} {}", i, flags, trees::to_hex(&p), trees::to_hex(&e))
             })
             .collect(),
@@ -83,6 +83,7 @@ pub fn gen_stream(name: &str, seed: u64, n: usize, tier: &str) -> Vec<String> {
             })
             .collect(),
         "run_softfork_args" => progs::generate_run_softfork_args(&mut rng, n, tier),
+        "op_fastpath" => progs::generate_op_fastpath(&mut rng, n, tier),
         "op_limits" => progs::generate_op_limits(&mut rng, n, tier),
         "run_default" => progs::generate_run(&mut rng, n, tier, &["chia"], "default"),
         "op" => progs::generate_op(&mut rng, n, tier, None),
